@@ -29,7 +29,10 @@
                   gives AR coefficient j times phi(j+1), MA coefficient j times phi(j+1), the same variance and the same exception, for
                   EVERY P, Q, lag and any two pairs of covariance-method oracles that are equivariant on the system they are handed
                   (y_k -> y_k phi(k+Q+1-P)); arma_estimate_modulation: one equivariant pair; ls_cov_modulation: the executable solver of
-                  Model/Ls.v is equivariant for every phase offset (no side condition); arma_class_call_rotation / _mirror: what the six
+                  Model/Ls.v is equivariant for every phase offset (no side condition); ls_exact_modulation / ls_exact_conjugation: so are the
+                  oracles of C15's correspondence run (elimination without pivoting or zero tests) whenever no pivot vanishes, hence
+                  arma_estimate_exact_modulation / parma_exact_shift (and, ordered, arma_estimate_exact_conj / parma_exact_mirror) hold for
+                  exactly the instance C15 ties to the code with NO oracle hypothesis; arma_class_call_rotation / _mirror: what the six
                   AR/MA/ARMA __call__ pipelines store for complex data is rolled by m bins / mirrored; parma_shift_solvers parma_shift
                   pma_object_shift: parma / pma objects built from the modulated data store the modulated ar / ma, the same rho and the
                   PSD rolled by m bins (or raise the same exception).
@@ -65,7 +68,7 @@ Require Import Spectrum.Theory.Ops Spectrum.Theory.Sum Spectrum.Theory.Vec Spect
                Spectrum.Proofs.ShiftArma_C04 Spectrum.Proofs.ShiftBurg_C04 Spectrum.Proofs.ShiftMinvar_C04
                Spectrum.Proofs.ShiftMtm_C04 Spectrum.Proofs.HomTransfer_C04 Spectrum.Proofs.ShiftPipeline_C04
                Spectrum.Proofs.ShiftMa_C04 Spectrum.Proofs.ShiftLs_C04
-               Spectrum.Proofs.ArmaEstNondeg Spectrum.Proofs.ShiftArmaEst_C04 Spectrum.Instances.QcCOrd
+               Spectrum.Proofs.ArmaEstNondeg Spectrum.Proofs.ShiftArmaEst_C04 Spectrum.Proofs.ShiftLsExact_C04 Spectrum.Instances.QcCOrd
                Spectrum.Instances.QcC Spectrum.Instances.QcCTw.
 From Coq Require Import QArith Qcanon.
 
@@ -414,6 +417,31 @@ Theorem pma_object_shift (m : Z) (x : list F) Q M twopi sampling sbf :
   pma_call tw (vmod (shift_phase m) 0 x) Q M twopi sampling n false sbf
   = map_call (modA (shift_phase m)) (rot m) (pma_call tw x Q M twopi sampling n false sbf).
 Proof. exact (pma_call_shift_thm n tw n_pos m x Q M twopi sampling sbf). Qed.
+
+(* the oracles of C15's correspondence run: equivariant when no pivot of their elimination vanishes *)
+Theorem ls_exact_modulation (m off : Z) (y : list F) p : ls_exact_regular y p ->
+  firstn p (lsm_exact (vmod (shift_phase m) off y) p) = modA (shift_phase m) (firstn p (lsm_exact y p))
+  /\ ls_exact (vmod (shift_phase m) off y) p = modA (shift_phase m) (ls_exact y p).
+Proof.
+  exact (fun Hr => Logic.conj (lsm_exact_modulation (shift_phase m) (shift_phase_add m) (shift_phase_0 m) (shift_phase_cj m) off y p Hr)
+                              (ShiftLsExact_C04.ls_exact_modulation (shift_phase m) (shift_phase_add m) (shift_phase_0 m) (shift_phase_cj m) off y p Hr)).
+Qed.
+
+Theorem ls_exact_conjugation (y : list F) p : ls_exact_regular y p ->
+  firstn p (lsm_exact (vconj y) p) = vconj (firstn p (lsm_exact y p)) /\ ls_exact (vconj y) p = vconj (ls_exact y p).
+Proof. exact (fun Hr => Logic.conj (lsm_exact_conj y p Hr) (ls_exact_conj y p Hr)). Qed.
+
+Theorem arma_estimate_exact_modulation (m : Z) (x : list F) P Q lag :
+  (forall r, acorr x lag Unbiased = Some r -> ls_exact_regular (arma_y r P Q lag) P) ->
+  arma_estimate lsm_exact ls_exact (vmod (shift_phase m) 0 x) P Q lag
+  = map_arma (modA (shift_phase m)) (arma_estimate lsm_exact ls_exact x P Q lag).
+Proof. exact (arma_estimate_exact_modulation_thm (shift_phase m) (shift_phase_add m) (shift_phase_0 m) (shift_phase_cj m) x P Q lag). Qed.
+
+Theorem parma_exact_shift (m : Z) (x : list F) P Q lag twopi sampling sbf :
+  (forall r, acorr x lag Unbiased = Some r -> ls_exact_regular (arma_y r P Q lag) P) ->
+  parma_call tw lsm_exact ls_exact (vmod (shift_phase m) 0 x) P Q lag twopi sampling n false sbf
+  = map_call (modA (shift_phase m)) (rot m) (parma_call tw lsm_exact ls_exact x P Q lag twopi sampling n false sbf).
+Proof. exact (parma_exact_shift_thm n tw n_pos m x P Q lag twopi sampling sbf). Qed.
 End C04.
 
 (* ---------------- real data: the real code path and the complex code path return the same parameters ---------------- *)
@@ -495,6 +523,19 @@ Theorem pma_object_mirror (x : list F) Q M twopi sampling sbf :
   (forall b rho, ArmaEst.ma x Q M = inr (b, rho) -> nonzero_data x) ->
   pma_call tw (vconj x) Q M twopi sampling n false sbf = map_call vconj mirror (pma_call tw x Q M twopi sampling n false sbf).
 Proof. exact (pma_call_mirror_thm n tw n_pos x Q M twopi sampling sbf). Qed.
+
+Theorem arma_estimate_exact_conj (x : list F) P Q lag :
+  (forall r, acorr x lag Unbiased = Some r -> ls_exact_regular (arma_y r P Q lag) P) ->
+  (forall a b rho, arma_estimate lsm_exact ls_exact x P Q lag = inr (a, b, rho) -> nonzero_data (arma_resid x a P)) ->
+  arma_estimate lsm_exact ls_exact (vconj x) P Q lag = map_arma vconj (arma_estimate lsm_exact ls_exact x P Q lag).
+Proof. exact (arma_estimate_exact_conj_thm x P Q lag). Qed.
+
+Theorem parma_exact_mirror (x : list F) P Q lag twopi sampling sbf :
+  (forall r, acorr x lag Unbiased = Some r -> ls_exact_regular (arma_y r P Q lag) P) ->
+  (forall a b rho, arma_estimate lsm_exact ls_exact x P Q lag = inr (a, b, rho) -> nonzero_data (arma_resid x a P)) ->
+  parma_call tw lsm_exact ls_exact (vconj x) P Q lag twopi sampling n false sbf
+  = map_call vconj mirror (parma_call tw lsm_exact ls_exact x P Q lag twopi sampling n false sbf).
+Proof. exact (parma_exact_mirror_thm n tw n_pos x P Q lag twopi sampling sbf). Qed.
 End C04ArmaConj.
 
 (* non-vacuity: an exact character exists (n = 4), modulated runs on concrete complex data return a model *)
@@ -536,8 +577,8 @@ Example arma_estimate_modulation_example :
      end = true.
 Proof.
   split; [|vm_compute; reflexivity].
-  apply (@arma_estimate_modulation_solvers _ qcc_ops qcc_laws 4 tw4 tw4_twiddle ltac:(lia) 1%Z).
-  intros r Hr. rewrite c04_r_eq in Hr. unfold c04_r in Hr. injection Hr as <-. cbv zeta. split; vm_compute; reflexivity.
+  apply (@arma_estimate_exact_modulation _ qcc_ops qcc_laws 4 tw4 tw4_twiddle ltac:(lia) 1%Z).
+  intros r Hr. rewrite c04_r_eq in Hr. unfold c04_r in Hr. injection Hr as <-. split; [|exact I]. vm_compute. intro E. inversion E.
 Qed.
 Definition c04_estcov := Eval vm_compute in @arma_estimate _ qcc_ops (@lsm_cov _ qcc_ops c04_tol) (@lsq_cov _ qcc_ops c04_tol) c04_ax 1 1 3.
 Lemma c04_estcov_eq : @arma_estimate _ qcc_ops (@lsm_cov _ qcc_ops c04_tol) (@lsq_cov _ qcc_ops c04_tol) c04_ax 1 1 3 = c04_estcov.
@@ -637,6 +678,10 @@ Print Assumptions arma_class_call_mirror.
 Print Assumptions parma_shift_solvers.
 Print Assumptions parma_shift.
 Print Assumptions pma_object_shift.
+Print Assumptions ls_exact_modulation.
+Print Assumptions ls_exact_conjugation.
+Print Assumptions arma_estimate_exact_modulation.
+Print Assumptions parma_exact_shift.
 Print Assumptions acorr_real_path.
 Print Assumptions levinson_real_path.
 Print Assumptions aryule_real_path.
@@ -648,3 +693,5 @@ Print Assumptions ls_cov_conj.
 Print Assumptions parma_mirror_solvers.
 Print Assumptions parma_mirror.
 Print Assumptions pma_object_mirror.
+Print Assumptions arma_estimate_exact_conj.
+Print Assumptions parma_exact_mirror.
